@@ -1025,14 +1025,35 @@ def _derive_cfg(out: Built):
 # ---------------------------------------------------------------------------
 # Registering the edits with the library
 # ---------------------------------------------------------------------------
+CONS_REGS = {
+    "x64": ["rax", "rcx", "rdx", "rbx", "rsi", "rdi", "r8", "r9", "r10", "r11", "r12"],
+    "ia32": ["eax", "ecx", "edx", "ebx", "esi", "edi"],
+    "arm64": ["x0", "x1", "x2", "x3", "x9", "x10", "x19", "x20"],
+}
+
+
 def make_patch(case: Case, ed: Edit, record=None):
     from gtirb_rewriting import Constraints, Patch
 
     _items, text = case.patch_units(ed)
+    # optional Constraints (spec["cons"], used where only run-to-run equality
+    # is judged: the prologue/epilogue bytes are not part of the listing model)
+    cons = Constraints()
+    cl = case.spec.get("cons")
+    if cl and case.blocks[ed.b].code and case.isa in CONS_REGS:
+        c = cl[ed.reg % len(cl)]
+        regs = CONS_REGS[case.isa]
+        cons = Constraints(
+            clobbers_registers={regs[k % len(regs)] for k in c.get("clob", [])},
+            clobbers_flags=bool(c.get("flags")),
+            align_stack=bool(c.get("align")),
+            preserve_caller_saved_registers=bool(c.get("caller")),
+            scratch_registers=int(c.get("scratch", 0)) % 3,
+        )
 
     class SpecPatch(Patch):
         def __init__(self):
-            super().__init__(Constraints())
+            super().__init__(cons)
 
         def get_asm(self, ctx):
             if record is not None:
